@@ -635,7 +635,7 @@ func (t *textGen) arbitrary(maxLen, n int) {
 				}
 			}
 		}
-		ntys := []string{"", "/", "/t", "t", "/t/", "/t/u", "//", "/ t", "_", "/_"}
+		ntys := []string{"", "/", "/t", "t", "/t/", "/t/u", "//", "/ t", "_", "/_", "/t>", "/>t", "/t>u"}
 		nids := []string{"", "a", "<", ">", " ", "a>", "<a", `\`}
 		for _, ty := range ntys {
 			for _, o := range []string{"<", "", "<<"} {
